@@ -1,5 +1,5 @@
 """C16 — emu-sv open-system runs: plumbing and generator shape (structural clauses)."""
-from ..rules import drivers, adapter, device, observables, step
+from ..rules import drivers, adapter, device, observables, step, axes
 
 META = {
     "title": "emu-sv open-system runs solve the Lindblad equation and stay physical",
@@ -36,3 +36,4 @@ def check(ctx):
     observables.sv_density_matrix_energy(ctx)
     drivers.sv_current_hamiltonian(ctx)
     drivers.sv_solver_table(ctx)
+    axes.diagonal_builders(ctx)
